@@ -200,7 +200,8 @@ def vh(args, work, timeout=3600):
     if os.path.exists(hang) and os.path.getsize(hang) > 0:
         stats["hang"] = [json.loads(l) for l in open(hang)]
         for h in stats["hang"]:
-            log("HANG: the code under test did not return (vh %s): %s" % (" ".join(args[:2]), json.dumps(h)[:400]))
+            log("%s (vh %s): %s" % ("PANIC while the harness observed the object" if h.get("kind") == "panic_in_observation" else "HANG: the code under test did not return",
+                                    " ".join(args[:2]), json.dumps(h)[:400]))
             HANGS.append({"args": list(args), "work": work, "hang": h, "handled": False})
     return stats
 
